@@ -72,7 +72,7 @@ def run(ctx):
     ctx.rule('C16.e-no-threads-locks', 'the crate calls into no thread, channel, lock or parking API')
     for cfg in cfgs:
         facts = ctx.facts(cfg)
-        check(ctx, facts, cfg)
+        ctx.guard('C16.analysable', check, ctx, facts, cfg)
     # witnesses are target-independent (host build)
     ws = witness.run_witnesses(ctx.repo)
     n = 0
